@@ -110,7 +110,16 @@ struct char_traits_base {
 
     static constexpr auto to_char_type(int_type c) noexcept -> char_type { return static_cast<char_type>(c); }
 
-    static constexpr auto to_int_type(char_type c) noexcept -> int_type { return static_cast<int_type>(c); }
+    static constexpr auto to_int_type(char_type c) noexcept -> int_type
+    {
+        // [char.traits.require]: eof() is different from to_int_type(c) for every character c,
+        // so char converts through unsigned char ('\xFF' is 255, not EOF)
+        if constexpr (etl::is_same_v<char_type, char>) {
+            return static_cast<int_type>(static_cast<unsigned char>(c));
+        } else {
+            return static_cast<int_type>(c);
+        }
+    }
 
     static constexpr auto eq_int_type(int_type lhs, int_type rhs) noexcept -> bool
     {
